@@ -91,6 +91,10 @@ class StochasticSolver(ABC):
     def set_failed_epoch(self):
         """Set internal state on failed epoch."""
 
+    def reset(self):
+        """Clear the state of a previous solve so the solver can be reused."""
+        self._nfails = 0
+
     def solve(  # noqa: PLR0913
         self,
         initial_model: ttb.ktensor,
@@ -135,7 +139,7 @@ class StochasticSolver(ABC):
 
         # Setup loop variables
         model = initial_model.copy()
-        self._nfails = 0
+        self.reset()
 
         best_model = model.copy()
         f_est_prev = f_est
@@ -320,6 +324,14 @@ class Adam(StochasticSolver):
         self._v: List[np.ndarray] = []
         self._v_prev: List[np.ndarray] = []
 
+    def reset(self):  # noqa: D102
+        super().reset()
+        self._total_iterations = 0
+        self._m = []
+        self._m_prev = []
+        self._v = []
+        self._v_prev = []
+
     def set_failed_epoch(  # noqa: D102
         self,
     ):
@@ -387,6 +399,10 @@ class Adagrad(StochasticSolver):
             max_iters,
             printitn,
         )
+        self._gnormsum = 0.0
+
+    def reset(self):  # noqa: D102
+        super().reset()
         self._gnormsum = 0.0
 
     def set_failed_epoch(  # noqa: D102
